@@ -249,3 +249,13 @@ func (r *Registry) Invalid(src *choice.Source, defect string) *Meta {
 	}
 	return r.add(m)
 }
+
+// Register records a content produced elsewhere (e.g. by the library's own
+// writer) as a valid Spec defining the given devices.
+func (r *Registry) Register(content []byte, like *Meta, asJSON bool) *Meta {
+	m := &Meta{ID: like.ID, Rev: like.Rev, Valid: true, Vendor: like.Vendor, Class: like.Class, Devices: like.Devices, JSON: asJSON, Content: content, Spec: like.Spec}
+	return r.add(m)
+}
+
+// NextID returns the id the next generated content will get.
+func (r *Registry) NextID() int { return r.nextID }
